@@ -95,7 +95,7 @@ def box_faces(tm):
     return np.array(tm.creation.box().faces)
 
 
-TETV = np.array([[0, 0, 0], [4, 0, 0], [0, 4, 0], [0, 0, 4]], dtype=float)
+TETV = np.array([[0, 0, 0], [4, 0, 0], [0, 8, 0], [0, 0, 12]], dtype=float)       # scalene faces
 TETF = np.array([[0, 2, 1], [0, 1, 3], [1, 2, 3], [2, 0, 3]])
 
 
@@ -122,7 +122,10 @@ EMPTY_OBS = {"den": 1, "pts": [], "faces": [], "has_vol": False, "vol6": 0, "has
 def apply_all(obj, names, restore, planar2d=False):
     mats = [to3(MAPS[n]) if planar2d else to4(MAPS[n]) for n in names]
     for M in mats:
-        obj.apply_transform(M)
+        buf = M.copy()
+        obj.apply_transform(buf)
+        # the matrix handed in stays the caller's: reusing the buffer afterwards must not move the geometry
+        buf[...] = 3.25
     if restore:
         total = np.eye(3 if planar2d else 4)
         for M in mats:
@@ -147,7 +150,7 @@ def run_case(tm, kind, names, restore, warm):
             if warm == "normals":
                 m.face_normals, m.vertex_normals
             elif warm == "all":
-                for k in ("face_normals", "vertex_normals", "edges", "edges_unique", "face_adjacency", "area", "volume", "center_mass",
+                for k in ("face_normals", "vertex_normals", "face_angles", "vertex_defects", "edges", "edges_unique", "face_adjacency", "area", "volume", "center_mass", "edges_unique_length", "area_faces", "face_adjacency_angles",
                           "moment_inertia", "bounds", "triangles", "edges_sparse", "faces_unique_edges", "is_watertight"):
                     getattr(m, k)
             apply_all(m, names, restore)
@@ -169,6 +172,14 @@ def run_case(tm, kind, names, restore, warm):
             nz = np.linalg.norm(cr, axis=1) > 1e-12
             if nz.any() and (np.abs(fn[nz] - cr[nz] / np.linalg.norm(cr[nz], axis=1)[:, None]).max() > 1e-9):
                 r["exc"] = "normals_disagree_with_winding"
+            # nothing computed before the transform may survive it with a wrong value
+            fresh = tm.Trimesh(np.array(m.vertices), np.array(m.faces), process=False)
+            for key, tol in (("face_angles", 1e-6), ("vertex_defects", 1e-6), ("vertex_normals", 1e-6), ("face_normals", 1e-9),
+                             ("edges_unique_length", 1e-9), ("area_faces", 1e-9), ("face_adjacency_angles", 1e-6), ("triangles_center", 1e-9)):
+                a, b = np.asarray(getattr(m, key), dtype=float), np.asarray(getattr(fresh, key), dtype=float)
+                if a.shape != b.shape or not np.allclose(a, b, atol=tol * max(1.0, float(np.abs(b).max()) if b.size else 1.0)):
+                    r["exc"] = "derived_value_differs_from_fresh_mesh:" + key
+                    break
             r["obs"] = o
             return r
         if kind == "cloud":
